@@ -72,7 +72,7 @@ run-time primitives are in `Base/PyList.lean`, which the `imports` of the genera
   callee's final list back into the caller's argument local for every `inout` parameter;
 * `a ** b` (natural exponent), `max(a, b)` / `min(a, b)` (integers: `max` / `min`; floats: `X.pymax` / `X.pymin`),
   list literals `[a, b]`, `[e] * n` (`List.replicate`), a list comprehension with one generator and a pure element
-  (`List.map`), a conditional expression whose branches are `Nat` and `Int` (coerced to `Int`), f-strings whose
+  (`List.map`; a comprehension variable that is a Lean keyword gets the suffix `_` like a declared local), a conditional expression whose branches are `Nat` and `Int` (coerced to `Int`), f-strings whose
   parts are strings, `+` on strings;
 * a dictionary that is only built and iterated is a list of pairs in insertion order: a dictionary comprehension
   `{k: v for a, b in it if c}` is `List.map` after `List.filter`, `for a, b in d.items()` iterates over the list;
@@ -659,6 +659,12 @@ class Fn:
                 raise Untranslatable(f"comprehension shape: {ast.unparse(node)}")
             it = self.iterator(g.iter)
             v = g.target.id
+            if v in LEAN_RESERVED:
+                # the variable of a comprehension that is a Lean keyword (`term`) is renamed like a declared local
+                for n in ast.walk(node.elt):
+                    if isinstance(n, ast.Name) and n.id == v:
+                        n.id = mangle(v)
+                v = mangle(v)
             if v in self.locals or v in self.ptypes or not it.ty.startswith("List "):
                 raise Untranslatable(f"comprehension variable / iterable: {ast.unparse(node)}")
             self.ptypes[v] = elem_type(it.ty)
